@@ -1947,7 +1947,8 @@ func (d *Data) ScaleUpdating(scale uint8) bool {
 
 func (d *Data) AnyScaleUpdating() bool {
 	d.updateMu.RLock()
-	for scale := uint8(0); scale < d.MaxDownresLevel; scale++ {
+	// updates holds one counter per scale 0..MaxDownresLevel; the coarsest level is the last to finish
+	for scale := 0; scale <= int(d.MaxDownresLevel) && scale < len(d.updates); scale++ {
 		if d.updates[scale] > 0 {
 			d.updateMu.RUnlock()
 			return true
